@@ -56,7 +56,11 @@ func (h *harnessRun) dumpQuery(p *Path, cond *Term) {
 }
 
 func newWorker(w *World, id int, timeoutMs int) (*Worker, error) {
-	sol, err := NewSolver("z3", timeoutMs)
+	name := os.Getenv("GOSYM_SOLVER")
+	if name == "" {
+		name = "z3-new" // z3 5.1.0: measured 25x faster than 4.8.12 on the ite-heavy byte queries
+	}
+	sol, err := NewSolver(name, timeoutMs)
 	if err != nil {
 		return nil, err
 	}
@@ -74,9 +78,9 @@ func (wk *Worker) runPath(h *harnessRun, prefix []int, model map[string]uint64) 
 		replace: map[string]FuncV{}, reached: map[string]bool{}, locks: map[string]*lockState{},
 		ghost: map[string]Value{}, guards: map[string]string{}, maxPreempt: 2, concreteModel: model}
 	p.h = newHeap(wk)
-	wk.sol.Push()
-	defer wk.sol.Pop()
+	wk.alignSolver(prefix)
 	defer func() {
+		wk.prevTaken = append([]int(nil), p.taken...)
 		if r := recover(); r != nil {
 			if pe, ok := r.(pathEnd); ok {
 				res.end = pe
@@ -195,6 +199,13 @@ func explore(w *World, h *harnessRun, workers []*Worker, maxPaths int, deadline 
 	h.violKeys = map[string]bool{}
 	h.reached = map[string]bool{}
 	h.notes = map[string]bool{}
+	for _, wk := range workers {
+		for len(wk.solLevels) > 0 {
+			wk.sol.Pop()
+			wk.solLevels = wk.solLevels[:len(wk.solLevels)-1]
+		}
+		wk.prevTaken = nil
+	}
 	var mu sync.Mutex
 	cond := sync.NewCond(&mu)
 	work := [][]int{{}}
